@@ -6,6 +6,7 @@ import HavocVerif.Model.Utf16
   how the parser works.
 -/
 namespace Havoc.SpecC03
+open Havoc.Parser
 
 /-- observation of a run of readers over a buffer: CanIRead answer, values, remaining bytes -/
 structure ReadObs where
@@ -21,5 +22,18 @@ def decodeOk (fs : List Field) (rest : Bytes) (o : ReadObs) : Bool :=
 
 /-- A wide string sent by the agent is shown unaltered (as the UTF-8 of the same scalars). -/
 def utf16Ok (cs : List Nat) (shown : Bytes) : Bool := shown == utf8 cs
+
+/-- executable form of "the packet holds the fields" (Spec C03): walk the buffer, fixed widths
+    for the integer kinds, an unsigned big-endian 32-bit length and that many bytes for a byte string -/
+def holdsFieldsB : List ReadType → Bytes → Bool
+  | [], _ => true
+  | .int32 :: ts, buf => decide (4 ≤ buf.length) && holdsFieldsB ts (buf.drop 4)
+  | .bool :: ts, buf => decide (4 ≤ buf.length) && holdsFieldsB ts (buf.drop 4)
+  | .int64 :: ts, buf => decide (8 ≤ buf.length) && holdsFieldsB ts (buf.drop 8)
+  | .pointer :: ts, buf => decide (8 ≤ buf.length) && holdsFieldsB ts (buf.drop 8)
+  | .bytes :: ts, buf =>
+    decide (4 ≤ buf.length) && decide (4 + beNat (buf.take 4) ≤ buf.length)
+      && holdsFieldsB ts (buf.drop (4 + beNat (buf.take 4)))
+
 
 end Havoc.SpecC03
